@@ -37,7 +37,7 @@ def wf(x, np):
     if exact and (up, low, pr) != exp: return 'upper/lower/precision are not max code*2^-n_frac, min code*2^-n_frac, 2^-n_frac: %r' % ((str(up), str(low), str(pr)),)
     return None
 
-OPS = ['ctor', 'ctor_raw', 'ctor_dtype', 'ctor_like', 'ctor_like_scaled', 'best_sizes', 'set', 'call', 'setitem', 'resize', 'like', 'add', 'sub', 'mul', 'const', 'div', 'floordiv', 'mod', 'neg', 'abs', 'lshift', 'rshift', 'invert', 'and', 'getitem', 'sum', 'cumsum', 'dot', 'max', 'transpose', 'equal', 'conj', 'resize_rejected', 'minmax_out', 'np_inplace', 'setitem_rejected']
+OPS = ['ctor', 'ctor_raw', 'ctor_dtype', 'ctor_like', 'ctor_like_scaled', 'best_sizes', 'set', 'call', 'setitem', 'resize', 'like', 'add', 'sub', 'mul', 'const', 'div', 'floordiv', 'mod', 'neg', 'abs', 'lshift', 'rshift', 'invert', 'and', 'getitem', 'sum', 'cumsum', 'dot', 'max', 'transpose', 'equal', 'conj', 'resize_rejected', 'minmax_out', 'np_inplace', 'setitem_rejected', 'view_widened']
 
 def A_fmt(z): return (bool(z.signed), int(z.n_word), int(z.n_frac))
 def rand_fmt(rng):
@@ -133,7 +133,7 @@ def run_program(rng, res, pid):
                     # returned (x(), get_val(), astype(), np.asarray(x)): the object stays well-formed (integer-valued objects with n_frac = 0 too)
                     sw = rng.random() < 0.6; nww = rng.choice([4, 8, 12, 16]); lo_, hi_ = S.fmt_bounds(sw, nww); big = rng.choice([hi_ + 1000, 10 ** 6, -(10 ** 6) if sw else 10 ** 7])
                     w = rng.choice([lambda: fx.Fxp([1, 2, 3], sw, nww, 0), lambda: fx.Fxp([1.0, 2.0, 3.0], sw, nww, 0), lambda: fx.Fxp([1, 2, 3], sw, nww, 2), lambda: fx.Fxp(np.array([1, 2, 3], dtype=np.int64), sw, nww, 0, overflow='wrap')])()
-                    how = rng.choice(['put', 'add_at', 'copyto', 'call', 'get_val', 'astype_int', 'asarray', 'array'])
+                    how = rng.choice(['put', 'add_at', 'copyto', 'call', 'get_val', 'astype_int', 'asarray', 'array', 'get_val_index', 'astype_index', 'get_val_ellipsis'])
                     try:
                         if how == 'put': np.put(w, [0], big)
                         elif how == 'add_at': np.add.at(w, [0], big)
@@ -142,11 +142,27 @@ def run_program(rng, res, pid):
                         elif how == 'get_val': a_ = w.get_val(); a_[0] = big
                         elif how == 'astype_int': a_ = w.astype(int); a_[0] = big
                         elif how == 'asarray': a_ = np.asarray(w); a_[0] = big
+                        elif how == 'get_val_index': a_ = w.get_val(index=slice(0, 2)); a_[0] = big      # (a selection read through the index= keyword)
+                        elif how == 'astype_index': a_ = w.astype(int, index=slice(None)); a_[1] = big
+                        elif how == 'get_val_ellipsis': a_ = w.get_val(index=Ellipsis); a_[2] = big
                         else: a_ = np.array(w, copy=False); a_[0] = big
                     except Exception: pass
                     nontriv = True; why = wf(w, np)
                     if why:
                         res.fail({'program': pid, 'log': log, 'object': -1, 'fmt': A_fmt(w), 'how': how}, 'C02: after %s (an in-place NumPy function on the object, or a write into the array a reading returned) an object is not well-formed' % how, got=why); return
+                elif op == 'view_widened':
+                    # a sub-array taken by slicing is RESIZED to a wider word (same sign and fraction) and written: what it stores then is its own
+                    # matter - the parent keeps codes of its own format (and the other way round: the parent widened, the sub-array taken before)
+                    sw = rng.random() < 0.6; nww = rng.choice([6, 8, 12, 64]); nfw = rng.choice([0, 2]); lo_, hi_ = S.fmt_bounds(sw, nww)
+                    p_ = fx.Fxp([1, 2, 3, hi_], sw, nww, nfw, raw=True, overflow=rng.choice(OMODES)); v_ = p_[0:2]
+                    big_ = (hi_ + 1) * 37
+                    if rng.random() < 0.5: v_.resize(n_word=nww + rng.choice([4, 8, 16])); v_.set_val(big_, raw=True, index=0)
+                    else: p_.resize(n_word=nww + rng.choice([4, 8, 16])); p_.set_val(big_, raw=True, index=1)
+                    nontriv = True
+                    for o_ in (p_, v_):
+                        why = wf(o_, np)
+                        if why:
+                            res.fail({'program': pid, 'log': log, 'object': -1, 'fmt': A_fmt(o_)}, 'C02: after a sub-array (or its parent) was widened by resize and written, the other one holds codes outside its own format', got=why); return
                 elif op == 'setitem_rejected':
                     # an indexed write that is rejected (a sequence that does not fit the selection; real or complex) leaves the object as it was
                     if np.asarray(x.val).ndim == 1 and np.asarray(x.val).size >= 2 and not np.iscomplexobj(x.val):
